@@ -79,7 +79,9 @@ Types == {"Structure", "Integer", "LongInteger", "BigInteger", "Enumeration", "B
 
 (* ---------------------------------------------------------------- mutations of one node *)
 \* members of the item syntax, both encodings
-TagOps == {"tag-unknown-name", "tag-empty", "tag-hex-bad", "tag-hex-unregistered", "tag-hex-own", "tag-other-registered", "tag-missing", "tag-hex-negative", "tag-hex-huge"}
+\* ("tag-hex-wide-*": a hexadecimal tag wider than three bytes whose low three bytes are the node's own / an unregistered tag)
+TagOps == {"tag-unknown-name", "tag-empty", "tag-hex-bad", "tag-hex-unregistered", "tag-hex-own", "tag-other-registered", "tag-missing", "tag-hex-negative", "tag-hex-huge",
+           "tag-hex-wide-own", "tag-hex-wide-unregistered"}
 TypeOps == {"type-unknown", "type-empty", "type-lowercase"} \cup {"type-as:" \o t : t \in Types}
 LeafValueOps == {"value-missing", "value-empty", "value-garbage", "value-hex-odd", "value-0x", "value-huge", "value-negative", "value-float", "value-spaces", "value-long"}
 TreeOps == {"drop-node", "dup-node", "swap-with-next"}
